@@ -176,8 +176,10 @@ def handle (op : String) (args : List String) : String :=
         let read := match XmlDoc.parseDoc px with
           | none => "x"
           | some es => if dumpElems 0 es == dumpElems 0 (oviewList forest) then "1" else "0"
+        -- <opaqOk> <why> <print = libyang> <reader(libyang) = oviewList> <opaqOkAnyNs> <the source has the repair of F300>
         "ok " ++ (if opaqOk forest then "1" else "0") ++ " " ++ (if why.isEmpty then "-" else ",".intercalate why) ++ " " ++
-          (if same then "1" else "0") ++ " " ++ read
+          (if same then "1" else "0") ++ " " ++ read ++ " " ++ (if opaqOkAnyNs forest then "1" else "0") ++ " " ++
+          (if Fixes.current.undeclare then "1" else "0")
     | _, _ => "err BadHex"
   | "specparse", [h] =>
     match Hex.dec h with
